@@ -103,6 +103,9 @@ func matchExpected(expected map[string]bool, o *Oblig) bool {
 			return true
 		}
 	}
+	if o.Kind == "modifies" && expected[o.Fn+"/modifies[*]"] {
+		return true
+	}
 	return false
 }
 
@@ -288,6 +291,27 @@ func cmdCheck(args []string) int {
 	// expand wildcards into the obligations generated now
 	var expanded []string
 	for _, name := range order {
+		if strings.HasSuffix(name, "/modifies[*]") {
+			// frame wildcard: every frame obligation generated now for the function (possibly none: a function
+			// that writes nothing generates none); a change that makes the function write a new location creates
+			// a new frame obligation, which this wildcard covers
+			pre := strings.TrimSuffix(name, "*]")
+			dup := map[string]bool{}
+			for _, e := range order {
+				dup[e] = true
+			}
+			for _, r := range out.results {
+				for _, o := range r.Obls {
+					if o.Kind == "modifies" && strings.HasPrefix(o.Name, pre) && !dup[o.Name] {
+						expanded = append(expanded, o.Name)
+					}
+				}
+			}
+			if fn := strings.TrimSuffix(name, "/modifies[*]"); out.fnErr[fn] != "" {
+				expanded = append(expanded, name)
+			}
+			continue
+		}
 		if strings.HasSuffix(name, "#*") || strings.HasSuffix(name, "@*") {
 			pre := strings.TrimSuffix(name, "*")
 			if strings.HasSuffix(name, "@*") {
@@ -457,6 +481,18 @@ func cmdClaim(args []string) int {
 		if r.Err != "" {
 			fmt.Printf("  ERROR %s: %s\n", r.Key, firstLines(r.Err, 6))
 		}
+		// frame wildcard: the function has an explicit frame and every frame obligation it generates is proved
+		if ct := w.contracts[r.Key]; ct != nil && r.Err == "" && !ct.ModAny && !ct.Trusted && ct.ModSet {
+			all := true
+			for _, o := range r.Obls {
+				if o.Kind == "modifies" && !(o.Res != nil && o.Res.Proved(o) && o.Res.Ms <= 8000) {
+					all = false
+				}
+			}
+			if all {
+				names = append(names, r.Key+"/modifies[*]")
+			}
+		}
 	}
 	os.MkdirAll(filepath.Join(verifRoot, "expected"), 0o755)
 	var sb strings.Builder
@@ -564,6 +600,15 @@ func writeEvidence(prop, tier string, seed int, w *World, out *checkOutcome, exp
 		sort.Strings(tr)
 		for _, k := range tr {
 			assumptions = append(assumptions, "trusted contract (body not checked): "+k)
+		}
+		for _, r := range out.results {
+			if ct := w.contracts[r.Key]; ct != nil {
+				for _, c := range ct.Ensures {
+					if strings.HasPrefix(c.Label, "ghost-") {
+						assumptions = append(assumptions, "ghost token (postcondition assumed at call sites, not proved): "+r.Key+"/ensures["+c.Label+"]")
+					}
+				}
+			}
 		}
 		for _, sp := range w.specs {
 			if sp.Opaque {
